@@ -27,6 +27,6 @@ else
 fi
 for c in "$@"; do
   ./check "$c" --tier "${SEED_TIER:-quick}" >"$dst/check_$c.log" 2>&1; rc=$?
-  echo "[$id] check $c exit=$rc: $(grep -c '^VIOLATION' "$dst/check_$c.log") VIOLATION lines; $(tail -1 "$dst/check_$c.log")"
+  echo "[$id] check $c exit=$rc: $(grep -c "^VIOLATION" "$dst/check_$c.log") VIOLATION lines; $(tail -1 "$dst/check_$c.log")"
   grep -A1 '^VIOLATION' "$dst/check_$c.log" | grep -v '^VIOLATION\|^--' | cut -c1-220 | head -2
 done
